@@ -12,7 +12,7 @@
 (***************************************************************************)
 EXTENDS Break, Json, SequencesExt
 
-CONSTANTS MaxEdits, BaseNameBug, MethodPathBug, EmitMod, EmitPick
+CONSTANTS MaxEdits, BaseNameBug, MethodPathBug, EmitMod, EmitPick, MultiMod
 
 Fd(id, name, ty, req) == [id |-> id, name |-> name, ty |-> ty, req |-> req]
 FA == "a.thrift"
@@ -70,5 +70,6 @@ IdenticalIsSilent == new = BaseProg => SpecDiag(BaseProg, new) = {}
 Ser(P) == [ f \in DOMAIN P |-> [ structs |-> P[f].structs, services |-> [ s \in DOMAIN P[f].services |-> SetToSeq(P[f].services[s]) ] ] ]
 Hash == Cardinality(SpecDiag(BaseProg, new)) * 7 + nedits * 3 + Cardinality(DOMAIN new)
 \* every program pair with two or more diagnostics (where reports can interact) and a sample of the others
-EmitCase == (Cardinality(SpecDiag(BaseProg, new)) >= 2 \/ (TLCGet("distinct") + Hash) % EmitMod = EmitPick) => PrintT(<<"CASE", ToJson([old |-> Ser(BaseProg), new |-> Ser(new)])>>)
+EmitCase == ((Cardinality(SpecDiag(BaseProg, new)) >= 2 /\ (TLCGet("distinct") + Hash) % MultiMod = 0)
+             \/ (TLCGet("distinct") + Hash) % EmitMod = EmitPick) => PrintT(<<"CASE", ToJson([old |-> Ser(BaseProg), new |-> Ser(new)])>>)
 =============================================================================
